@@ -149,7 +149,11 @@ def one_case(sp, rng, c):
     T = S.term(A)
     assert T == term_of(c), (T, term_of(c))
     TH, TN = S.term(A.H), S.term(A.N)
-    info.update(status="accepted", oracle=impl_oracle(sp, rng, A, c), out_dtype=str(y.dtype))
+    try:
+        orc_fail = impl_oracle(sp, rng, A, c)
+    except Exception as e:        # A accepted these parameters but A.H / A.N raised on them: a failure of the implementation oracle
+        orc_fail = [("exception", repr(e)[:300])]
+    info.update(status="accepted", oracle=orc_fail, out_dtype=str(y.dtype))
     expr = "andb (chk_opaque_fourier %s %s %s %s %s %s %s) (chk_opaque_fourier_adj_normal %s %s %s)" % (
         T, tw_table(c["shape"]), L.flt(tol_of(c["dtype"])), L.zlist(A.oshape), L.zlist(A.ishape),
         L.cflist(np.asarray(x).ravel()), L.cflist(y.ravel()), T, TH, TN)
